@@ -1,6 +1,7 @@
 import JT.Proof.GoFrame
 import JT.Proof.GoModel
 import JT.Proof.GoModelBcd
+import JT.Proof.GoLoc
 /-!
 # C03 — the frame-level decoders as they stand in the source are total
 
@@ -109,5 +110,26 @@ theorem source_active_safety_decoders_total (fuel : Nat) (j : Gen.GoFrame.jt808_
   ⟨fun t => (Go.X.isOk_iff _).mp (Gen.GoModel.T0x1205_Parse_total fuel t j (by omega)),
    fun t => (Go.X.isOk_iff _).mp (Gen.GoModel.T0x1210_Parse_total fuel t j hf),
    fun t => (Go.X.isOk_iff _).mp (Gen.GoModel.P0x9208_Parse_total fuel t j (by omega))⟩
+
+/-- **Authentication and the location carriers, translated source**: `T0x0102.Parse` (2019 layout: length-prefixed code,
+IMEI, software version cut at its first NUL — `bytes.IndexByte` stays inside the 20-byte field), the two flag-word parsers,
+the 28-byte location block and `T0x0801.Parse` return a value for every input and every receiver. -/
+theorem source_auth_and_location_decoders_total (fuel : Nat) (j : Gen.GoFrame.jt808_JTMessage) (hf : 6 < fuel) :
+    (∀ t : Gen.GoModel.model_T0x0102, ∃ r, Gen.GoModel.model_T0x0102_Parse fuel t j = .ok r) ∧
+    (∀ (a : Gen.GoModel.model_AlarmSignDetails) (w : UInt32), ∃ r, Gen.GoModel.model_AlarmSignDetails_parse fuel a w = .ok r) ∧
+    (∀ (s : Gen.GoModel.model_StatusSignDetails) (w : UInt32), ∃ r, Gen.GoModel.model_StatusSignDetails_parse fuel s w = .ok r) ∧
+    (∀ (tl : Gen.GoModel.model_T0x0200LocationItem) (b : Bytes), ∃ r, Gen.GoModel.model_T0x0200LocationItem_parse fuel tl b = .ok r) ∧
+    (∀ t : Gen.GoModel.model_T0x0801, ∃ r, Gen.GoModel.model_T0x0801_Parse fuel t j = .ok r) := by
+  refine ⟨fun t => (Go.X.isOk_iff _).mp (Gen.GoModel.T0x0102_Parse_total fuel t j), fun a w => ⟨_, Gen.GoModel.AlarmSignDetails_parse_eq fuel a w⟩,
+    fun s w => ⟨_, Gen.GoModel.StatusSignDetails_parse_eq fuel s w⟩, ?_, ?_⟩
+  · intro tl b
+    by_cases h : 28 ≤ b.length
+    · exact ⟨_, Gen.GoModel.LocationItem_parse_eq fuel tl b h hf⟩
+    · obtain ⟨e, he⟩ := Gen.GoModel.LocationItem_parse_short fuel tl b (by omega)
+      exact ⟨_, he⟩
+  · intro t
+    by_cases h : 36 ≤ j.Body.length
+    · exact ⟨_, Gen.GoModel.T0x0801_Parse_eq fuel t j h hf⟩
+    · exact ⟨_, Gen.GoModel.T0x0801_Parse_short fuel t j (by omega)⟩
 
 end JT.C03
